@@ -16,7 +16,9 @@ def run(tier, seed):
         ck.violation("harness-build", {"kind": "build"}, {"log": log[-3000:]}, no_input=True)
         return ck.finish()
     rc, out = sh([binp, "-seed", str(seed), "-n", str(n)], timeout=1200)
-    cases = jlines(out)
+    lines = jlines(out)
+    succ = [x for x in lines if x.get("kind") == "successor"]
+    cases = [x for x in lines if x.get("kind") != "successor"]
     if rc != 0 or not cases:
         ck.violation("harness-crash", {"kind": "crash"}, {"rc": rc, "tail": out[-3000:]})
         return ck.finish()
@@ -27,6 +29,16 @@ def run(tier, seed):
     def viol(kind, sig, detail, **kw):
         if kind in shown: return
         shown.add(kind); ck.violation(kind, sig, detail, **kw)
+    # successor instances: nothing of a closed instance's memory reaches a later, unrelated instance
+    dist["successor_probes"] = len(succ)
+    if len(succ) != 12:
+        viol("successor-missing", {"kind": "successor-missing"}, {"got": len(succ)}, no_input=True)
+    for sc in succ:
+        if sc.get("err") or any(sc.get("reads") or []):
+            viol("successor-sees-closed-instance-" + sc["engine"], {"kind": "successor-sees-closed-instance", "engine": sc["engine"], "capmax": sc["capmax"], "where": sc["where"]},
+                 {"oracle": "instance A: memory (1, max 4) grow 3, stores 0x5ec2e7xx at 65552, 131068, 131072, 196600, 262140, closed; then instance B (%s, capacity-from-max=%s) "
+                            "grows by 3 and loads the same addresses: a lone instance reads zeros, B read %s%s" % (sc["where"], sc["capmax"], [hex(x) for x in sc.get("reads") or []],
+                            (" / error " + sc["err"]) if sc.get("err") else ""), "probe": sc})
     for c in cases:
         dist["instances"] += c["n"]; dist["calls"] += len(c["sched"])
         for eng in ("interp", "compiler"):
